@@ -32,7 +32,7 @@ ERROR awkward_ListArray_getitem_next_array_advanced(
       return failure("index out of range", i, fromarray[fromadvanced[i]], FILENAME(__LINE__));
     }
     tocarry[i] = fromstarts[i] + regular_at;
-    toadvanced[i] = i;
+    toadvanced[i] = fromadvanced[i];
   }
   return success();
 }
